@@ -62,8 +62,6 @@ let pyobj_of = function
 let status_s = function
   | Exit n -> L [A "exit"; nat_s n]
   | Uncaught u -> L [A "uncaught"; ufam_s u]
-let pval_s = function
-  | PVNone -> A "none" | PVJson i -> L [A "json"; nat_s i] | PVText t -> L [A "text"; s t]
 let line_s = function
   | OHint -> A "hint" | OWarn -> A "warn" | OVerb -> A "verb" | OSep -> A "sep"
   | OJson i -> L [A "json"; nat_s i]
@@ -71,7 +69,7 @@ let line_s = function
   | OEntry i -> L [A "entry"; nat_s i]
   | OValid (f, i) -> L [A "valid"; s f; nat_s i]
   | OInvalid (f, i) -> L [A "invalid"; s f; nat_s i]
-  | OPath (p, v) -> L [A "path"; s p; pval_s v]
+  | OPath (p, j) -> L [A "path"; s p; (match j with None -> A "none" | Some i -> L [A "some"; nat_s i])]
   | ODump (j, ds) -> L [A "dump"; bs j; L (List.map nat_s ds)]
 let effect_s = function
   | EBackup -> A "backup"
@@ -117,7 +115,7 @@ let valres_of = function
   | L [A "raise"; u] -> VRaise (ufam_of u)
   | x -> failwith ("bad valres " ^ to_string x)
 let pathrec_of = function
-  | L [A "pr"; st; ne; v] -> { pr_str = str_atom st; pr_noesc = str_atom ne; pr_value = valres_of v }
+  | L [A "pr"; st; segs; v] -> { pr_str = str_atom st; pr_segs = list_of str_atom segs; pr_value = valres_of v }
   | x -> failwith ("bad pathrec " ^ to_string x)
 let expr_results_of (x : t) =
   list_of (function
@@ -129,10 +127,12 @@ let handle (cmd : string) (args : t list) : t option =
   try
     match cmd, args with
     | "cli-argparse", [st] -> Some (run_s { r_status = Exit (nat_atom st); r_out = []; r_fx = [] })
-    | "cli-get", [L [A "args"; file; nostdin; priv; priv_ok; pub; pub_ok]; tty; load; query] ->
-      let a = { ga_file = str_atom file; ga_nostdin = bool_of_sym nostdin; ga_priv = bool_of_sym priv;
+    | "cli-outside-model", [x] -> Some x
+    | "cli-argparse-crash", [c] -> Some (run_s { r_status = Uncaught (UCrash (str_atom c)); r_out = []; r_fx = [] })
+    | "cli-get", [L [A "args"; file; nostdin; noise; priv; priv_ok; pub; pub_ok]; tty; load; qverb; query] ->
+      let a = { ga_file = str_atom file; ga_nostdin = bool_of_sym nostdin; ga_noise = noise_of noise; ga_priv = bool_of_sym priv;
                 ga_priv_ok = bool_of_sym priv_ok; ga_pub = bool_of_sym pub; ga_pub_ok = bool_of_sym pub_ok } in
-      Some (run_s (get_main a (bool_of_sym tty) (raw1_of load) (lres_of (list_of pyobj_of) query)))
+      Some (run_s (get_main a (bool_of_sym tty) (raw1_of load) (nat_atom qverb) (lres_of (list_of pyobj_of) query)))
     | "cli-diff", [estr; L [A "args"; lhs; rhs; noise; same; onlysame; config; config_ok; priv; priv_ok; pub; pub_ok; left; right];
                    ls; rs; report] ->
       let a = { da_lhs = str_atom lhs; da_rhs = str_atom rhs; da_noise = noise_of noise; da_same = bool_of_sym same;
@@ -176,11 +176,11 @@ let handle (cmd : string) (args : t list) : t option =
       let flow = table1 "flow" bool_of_sym flow_t in
       Some (run_s (set_main (lres_of nat_atom built) saveto change flow a (b tty) (b valfile_ok) (raw1_of load)
                      (lres_of (list_of setnode_of) gather)))
-    | "cli-paths", [estr; L [A "args"; search; except; nofile; noexpr; nopath; values; noescape; nostdin; priv; priv_ok; pub; pub_ok];
+    | "cli-paths", [estr; L [A "args"; search; except; nofile; noexpr; nopath; values; noescape; fslash; nostdin; priv; priv_ok; pub; pub_ok];
                     tty; srcs; stdin_src; st] ->
       let b = bool_of_sym in
       let a = { pa_search = list_of str_atom search; pa_except = list_of str_atom except; pa_nofile = b nofile;
-                pa_noexpression = b noexpr; pa_noyamlpath = b nopath; pa_values = b values; pa_noescape = b noescape;
+                pa_noexpression = b noexpr; pa_noyamlpath = b nopath; pa_values = b values; pa_noescape = b noescape; pa_fslash = b fslash;
                 pa_nostdin = b nostdin; pa_priv = b priv; pa_priv_ok = b priv_ok; pa_pub = b pub; pa_pub_ok = b pub_ok } in
       let searches = table1 "searches" (function L [ss; xs] -> (expr_results_of ss, expr_results_of xs)
                                                | x -> failwith ("bad searches " ^ to_string x)) st in
